@@ -5,13 +5,14 @@
 (* instances, classified by Schema!Valid.  Used exhaustively with small     *)
 (* bounds and under `tlc -simulate` for deep random documents.              *)
 (***************************************************************************)
-EXTENDS SchemaGen, Json
+EXTENDS SchemaGen, FamiliesE, Json
 
 Cap(seq, n) == IF Len(seq) > n THEN SubSeq(seq, 1, n) ELSE seq
 Emit == done =>
     LET cs == Cap(Candidates(RootT, AllDefs, 2), 120)
         vv == [j \in DOMAIN cs |-> Valid(RootT, cs[j], AllDefs)]
     IN PrintT(<<"CASE", ToJson([fam |-> "GEN", id |-> "gen", steps |-> steps, supported |-> TRUE,
+                                 enforced |-> Enforced(RootT, AllDefs, 3), stringlike |-> FALSE,
                                  settings |-> [builder |-> FALSE],
                                  calls |-> << [call |-> "add_root_schema", doc |-> [defs |-> AllDefs]] >>,
                                  probes |-> [j \in DOMAIN cs |-> [kind |-> "deser", ty |-> [def |-> "T"], val |-> cs[j],
